@@ -43,7 +43,7 @@ import (
 func init() { families["tp"] = famTP }
 
 const (
-	tpLoc     = "https://tp.example"   // service 0
+	tpLoc     = "https://tp.example"           // service 0
 	tpLocB    = "https://tp-b.example/auth/v1" // service 1: own key, own location (WITH a path, which tp/README allows), SAME store
 	tpFirst   = "https://first-party.example"
 	tpCavEnd  = int64(1) << 40
